@@ -139,7 +139,7 @@ def run_spec(spec, props=("C14",)):
         Tcontact = {(u, v): ((u * 3 + v * 5 + u * v) % 3) != 0 for u in range(n) for v in range(n)}
         I0 = ic0[1]; R0 = ic0[2]
 
-        def run_all(G, labels):
+        def run_all(G, labels, Tdelay=Tdelay, Tdur=Tdur, suffix=""):
             inv = {}
             for c in range(n):
                 inv[labels[c]] = c
@@ -154,8 +154,20 @@ def run_spec(spec, props=("C14",)):
                                                                rec_time_fxn=lambda u: Tdur[inv[u]], initial_infecteds=i0, tmax=4.0, return_full_data=True)
             res = {}
             for k, si in outs.items():
-                res[k] = {inv[v]: (list(si.node_history(v)[0]), list(si.node_history(v)[1])) for v in G.nodes()}
+                res[k + suffix] = {inv[v]: (list(si.node_history(v)[0]), list(si.node_history(v)[1])) for v in G.nodes()}
             return res
+        # a second, tie-prone rule set (integer delays and durations: transmissions landing exactly on recoveries,
+        # simultaneous infections); the unchanged code is order independent under these too
+        Tdelay2 = {(u, v): 1 + ((u + 2 * v) % 2) for u in range(n) for v in range(n)}
+        Tdur2 = {u: 1 + (u % 3) for u in range(n)}
+        run1 = run_all
+
+        def run_all(G, labels):
+            a = run1(G, labels)
+            b = run1(G, labels, Tdelay2, Tdur2, "[ties]")
+            b.pop("discrete_SIR[ties]", None)
+            a.update(b)
+            return a
         ref = run_all(G0, ident)
         for (vname, labels, no, eo) in variants:
             G = build(n, edges, labels, no, eo)
